@@ -114,3 +114,40 @@ def is_exc(res, name=None):
     if isinstance(res, list) and len(res) == 2 and res[0] == 'EXC':
         return name is None or res[1] == name
     return False
+
+
+def builtin_representative_differs(probe, a, b):
+    """listed finding C16-builtin-instance-representative: the value set holds two
+    representations of one builtin instance (a compiled object produced by an
+    operation, and an ExactValue standing for a literal); the API removes
+    duplicates that are equal "in an API sense" and keeps whichever the set
+    iteration yields first.  Recognised narrowly:
+      Names (infer/goto/help): same entries in everything but docstring hash,
+        and every differing entry is a builtin instance without a module path;
+      completions: same (name, complete) lists, differing entries differ only in
+        type and are dunder or builtin-number attribute names of an instance."""
+    try:
+        if is_exc(a) or is_exc(b) or len(a) != len(b):
+            return False
+        if probe['m'] in ('infer', 'goto', 'help'):
+            if not all(len(x) == 8 for x in a + b):
+                return False
+            sa, sb = sorted(a, key=lambda x: x[:7]), sorted(b, key=lambda x: x[:7])
+            for x, y in zip(sa, sb):
+                if x[:7] != y[:7]:
+                    return False
+                if x[7] != y[7] and not (x[2] is None and x[1] == 'instance' and str(x[5]).startswith('builtins.')):
+                    return False
+            return True
+        if probe['m'] == 'complete':
+            for x, y in zip(a, b):
+                if x[:2] != y[:2]:
+                    return False
+                if x[2] != y[2] and not ({x[2], y[2]} <= {'instance', 'function', 'property'}):
+                    return False
+            return True
+        return False
+    except Exception:
+        return False
+
+
